@@ -494,6 +494,15 @@ func replayMain(a []string) int {
 		return 0
 	}
 	env := &sim.Env{Prop: rp.Check, Tier: "replay"}
+	limit := uint64(5) << 30
+	if sim.RaceBuild {
+		limit = 12 << 30
+	}
+	sim.WatchMemory(limit, func(mib uint64) {
+		fmt.Printf("VIOLATION property=%s replay=%s\n", rp.Property, a[0])
+		fmt.Printf("  memory blow-up reproduced: the process grew to %d MiB while replaying the case (recorded: %s)\n", mib, rp.Verdict.Class())
+		os.Exit(1)
+	})
 	res, herr := sim.Execute(rp.Case, env)
 	if herr != nil {
 		fmt.Fprintln(os.Stderr, "HARNESS ERROR:", herr)
